@@ -379,7 +379,7 @@ impl Property for C12 {
             bounds: json!({"bfs_depth": tier.pick(3, 5), "actions": 3, "sweep_limit": "4*nodes+32", "ctl_len": tier.pick(3, 4), "parts": self.space(tier).parts}),
             assumptions: vec![
                 "states with equal dumps are merged: every pass is a function of exactly the dumped facts".into(),
-                "hash order is canonical (all-default schedule) in every run".into(),
+                "hash order is canonical (all-default schedule) in the pass-sequence exploration; the second-analysis comparison covers every schedule with at most one deviation (capped at 48 / 256 runs per program)".into(),
             ],
             states_counter: "states",
             transitions_counter: "transitions",
